@@ -18,6 +18,8 @@ structure Obj where
   ns     : String
   name   : String
   labels : List (String × String) := []
+  /-- the Go label map is nil (not just empty): `krt.FilterSelects(nil)` does not filter at all -/
+  labelsNil : Bool := false
   sel    : List (String × String) := []
   /-- output keys this object produces when it is the input of a one-to-many transformation -/
   outs   : List String := []
@@ -69,7 +71,7 @@ def genericPred (n : Nat) (i o : Obj) : Bool :=
 /-- `filter.Matches` for one conjunct. -/
 def FAtom.matches (i : Obj) : FAtom → Obj → Bool
   | .key, o => o.key == i.ref
-  | .selects, o => subsetOf o.sel i.labels
+  | .selects, o => i.labelsNil || subsetOf o.sel i.labels
   | .selectsNE, o => !o.sel.isEmpty && subsetOf o.sel i.labels
   | .label, o => subsetOf i.sel o.labels
   | .nsIndex, o => o.ns == i.ns
